@@ -61,7 +61,7 @@ fn main() {
             let maxops: u64 = arg("--maxops", "30").parse().unwrap();
             let depth: usize = arg("--depth", "3").parse().unwrap();
             let big = arg("--big", "0") == "1";
-            let o = if kind == "empties" { gen::empties_histories(seed, n) } else if kind == "words" { gen::word_histories(seed, n) } else if kind == "large" { gen::large_histories(seed, n, mode == gen::Mode::Crash) } else if kind == "random" { gen::random_histories(seed, n, maxops, mode, big) } else { gen::exhaustive_histories(depth, mode, n, seed) };
+            let o = if kind == "double" { gen::double_crash_histories(seed, n) } else if kind == "empties" { gen::empties_histories(seed, n) } else if kind == "words" { gen::word_histories(seed, n) } else if kind == "large" { gen::large_histories(seed, n, mode == gen::Mode::Crash) } else if kind == "random" { gen::random_histories(seed, n, maxops, mode, big) } else { gen::exhaustive_histories(depth, mode, n, seed) };
             finish(&out, o);
         }
         "adv" => {
